@@ -15,6 +15,7 @@ import MC.Model.Speech
 import MC.Model.TextCodes
 import MC.Model.Fallback
 import MC.Model.Loader
+import MC.Model.Clean
 open Lean
 
 namespace MC.Driver
@@ -286,6 +287,25 @@ def handleCanon (op : String) (req : Json) : Option Json :=
     some <| okJ <| Json.arr ((MC.Spec.Canon.allIds r).map fun i => match i with | some x => toJson (ofCps x) | none => Json.null).toArray
   | _ => none
 
+/-- names and token text of a tree (attributes dropped except `intent`): what the clean-up correspondence compares -/
+partial def shapeJ : MC.Xml.Node → Json
+  | .text t => toJson (ofCps t)
+  | .elem n attrs kids =>
+    Json.mkObj [("n", toJson (ofCps n)), ("i", toJson (MC.Clean.hasIntent attrs)), ("c", Json.arr (kids.map shapeJ).toArray)]
+
+/-- clean-up skeleton (C01 / C02): `clean` = the model's `clean_mathml` on a whole `<math>` tree -/
+def handleClean (op : String) (req : Json) : Option Json :=
+  match op with
+  | "clean" =>
+    let inp := nodeOfJson ((req.getObjVal? "inp").toOption.getD Json.null)
+    some <| okJ <| Json.mkObj [
+      ("vocab", toJson (MC.Clean.vocabOk inp)),
+      ("restarts", toJson (MC.Clean.restarts (MC.Clean.trim inp))),
+      ("out", match MC.Clean.cleanMath inp with | some r => shapeJ r | none => Json.null),
+      ("shape_in", shapeJ inp)]
+  | "shape" => some <| okJ <| shapeJ (nodeOfJson ((req.getObjVal? "inp").toOption.getD Json.null))
+  | _ => none
+
 def handleSpeech (op : String) (req : Json) : Option Json :=
   match op with
   | "speech_join" =>
@@ -356,7 +376,7 @@ def handleLoader (op : String) (req : Json) : Option Json :=
     some <| okJ <| Json.mkObj [("cell", Json.mkObj [("files", pairsToJson r.1.files), ("data", pairsToJson r.1.data)]), ("ok", toJson r.2), ("needs", toJson needs)]
   | _ => none
 
-def handlers : List (String → Json → Option Json) := [handleVariant, handlePreproc, handlePrefs, handleNav, handleTts, handleIntent, handleHighlight, handleBrailleFinal, handleNumbers, handleRows, handleCanon, handleSpeech, handleTextCodes, handleFallback, handleLoader]
+def handlers : List (String → Json → Option Json) := [handleVariant, handlePreproc, handlePrefs, handleNav, handleTts, handleIntent, handleHighlight, handleBrailleFinal, handleNumbers, handleRows, handleCanon, handleSpeech, handleTextCodes, handleFallback, handleLoader, handleClean]
 
 def handle (req : Json) : Json :=
   let op := getStr req "op"
